@@ -2556,6 +2556,7 @@ package decimal128
 //@ assert before "return digs.fmtF(nil, prec, 0, false, false, false, false, false), nil": coef(d) == 0 || rs(V, 6196) < 1
 //@ callarg digits.fmtE#1: arg_prec == ite(digs.ndig != 0, digs.ndig - 1, 0) && arg_width == 0 && !arg_forceDP && !arg_printSign && !arg_padSign && !arg_padExp && !arg_padRight && !arg_padZero && arg_e == 101
 //@ callarg digits.fmtF#1: arg_prec == ite(digs.exp < 0, 0 - digs.exp, 0) && arg_width == 0 && !arg_forceDP && !arg_printSign && !arg_padSign && !arg_padRight && !arg_padZero
+//@ ensures !special(d) ==> jst(out, len(out)) == 2 || jst(out, len(out)) == 3 || jst(out, len(out)) == 5 || jst(out, len(out)) == 8
 //@ props C13 C20
 
 // String / MarshalText (C06): the layout is chosen by the value: positional exactly when
@@ -2688,6 +2689,7 @@ package decimal128
 //@ func digits.fmtE
 //@ returns (out)
 //@ requires 0 <= d.ndig && d.ndig <= 39 && 0 - 9900 <= d.exp && d.exp <= 9900 && width <= 100000000 && width >= 0 - 100000000 && prec <= 100000000
+//@ requires forall k in 0..38: k < d.ndig ==> 48 <= d.dig[k] && d.dig[k] <= 57
 //@ define AX = (d.exp + ite(d.ndig > 1, d.ndig - 1, 0))
 //@ define AE = ite(AX < 0, 0 - AX, AX)
 //@ define L = len(buf)
@@ -2716,9 +2718,27 @@ package decimal128
 //@ loop 1: invariant forall k in 0..N0 - 1: buf[k] == old(buf[k])
 //@ loop 1: decreases prec - i
 //@ cut before "buf = append(buf, e)": havoc buf: len(buf) == MB + 1 + FR && (SL == 1 ==> buf[N0] == ite(d.neg, 45, ite(printSign, 43, 32))) && buf[MB] == ite(d.ndig == 0, 48, d.dig[0]) && (prec > 0 ==> buf[MB + 1] == 46) && (prec <= 0 && forceDP ==> buf[MB + 1] == 46) && (prec > 0 ==> (forall k in MB + 2..MB + d.ndig: buf[k] == DG[k - MB - 1]) && (forall k in MB + 2 + ite(d.ndig > 1, d.ndig - 1, 0)..MB + FR: buf[k] == 48)) && (forall k in 0..N0 - 1: buf[k] == old(buf[k]))
-//@ cut before "buf = d.pad(buf, start, width, printSign, padSign, padRight, padZero)": havoc buf: len(buf) == LEN && (forall k in 0..N0 - 1: buf[k] == old(buf[k]))
 //@ ensures len(out) == ite(width > LEN - N0, N0 + width, LEN)
 //@ ensures forall k in 0..N0 - 1: out[k] == old(buf[k])
+//@ assert before "buf = d.pad(buf, start, width, printSign, padSign, padRight, padZero)": len(buf) == LEN
+//@ assert before "buf = d.pad(buf, start, width, printSign, padSign, padRight, padZero)": forall k in 0..N0 - 1: buf[k] == old(buf[k])
+//@ assert before "buf = d.pad(buf, start, width, printSign, padSign, padRight, padZero)": SL == 1 ==> buf[N0] == ite(d.neg, 45, ite(printSign, 43, 32))
+//@ assert before "buf = d.pad(buf, start, width, printSign, padSign, padRight, padZero)": buf[MB] == ite(d.ndig == 0, 48, d.dig[0])
+//@ assert before "buf = d.pad(buf, start, width, printSign, padSign, padRight, padZero)": prec > 0 || forceDP ==> buf[MB + 1] == 46
+//@ assert before "buf = d.pad(buf, start, width, printSign, padSign, padRight, padZero)": prec > 0 ==> (forall k in MB + 2..X0 - 1: buf[k] >= 48 && buf[k] <= 57)
+//@ assert before "buf = d.pad(buf, start, width, printSign, padSign, padRight, padZero)": buf[X0] == e && buf[X0 + 1] == SG
+//@ assert before "buf = d.pad(buf, start, width, printSign, padSign, padRight, padZero)": forall k in X0 + 2..LEN - 1: buf[k] >= 48 && buf[k] <= 57
+//@ define JSE = (N0 == 0 && !printSign && !padSign && !forceDP && (d.ndig > 0 ==> d.dig[0] != 48) && (e == 101 || e == 69))
+//@ apply before "buf = d.pad(buf, start, width, printSign, padSign, padRight, padZero)": jst_digits(buf, MB + 2, ite(prec > 0, X0, MB + 2))
+//@ apply before "buf = d.pad(buf, start, width, printSign, padSign, padRight, padZero)": jst_digits(buf, X0 + 2, LEN)
+//@ assert before "buf = d.pad(buf, start, width, printSign, padSign, padRight, padZero)": JSE ==> jst(buf, MB) == ite(d.neg, 1, 0)
+//@ assert before "buf = d.pad(buf, start, width, printSign, padSign, padRight, padZero)": JSE ==> jst(buf, MB + 1) == ite(d.ndig == 0, 2, 3)
+//@ assert before "buf = d.pad(buf, start, width, printSign, padSign, padRight, padZero)": JSE && prec > 0 ==> jst(buf, MB + 2) == 4
+//@ assert before "buf = d.pad(buf, start, width, printSign, padSign, padRight, padZero)": JSE ==> jst(buf, X0) == ite(prec > 0, 5, ite(d.ndig == 0, 2, 3))
+//@ assert before "buf = d.pad(buf, start, width, printSign, padSign, padRight, padZero)": JSE ==> jst(buf, X0 + 1) == 6
+//@ assert before "buf = d.pad(buf, start, width, printSign, padSign, padRight, padZero)": JSE ==> jst(buf, X0 + 2) == 7
+//@ assert before "buf = d.pad(buf, start, width, printSign, padSign, padRight, padZero)": JSE ==> jst(buf, LEN) == 8
+//@ ensures JSE && width == 0 ==> jst(out, len(out)) == 8
 //@ props C06 C07 C20
 
 // ---------------------------------------------------------------------------------------------
@@ -3021,6 +3041,39 @@ package decimal128
 // digits.pad (C07): width handling. The result is buf itself when it already has the width;
 // otherwise it has exactly width bytes: with '-' the text followed by the padding byte; without it
 // the padding first, except that with '0' padding a sign byte stays in front of the zeros.
+// RFC 8259 number grammar as an automaton over the bytes (C13): states 0 start, 1 after '-', 2 after a
+// leading 0, 3 in the integer digits, 4 after '.', 5 in the fraction digits, 6 after e/E, 7 after the
+// exponent sign, 8 in the exponent digits, 9 reject; accepting: 2, 3, 5, 8.
+//@ fold jst
+//@ define DIG = (c >= 48 && c <= 57)
+//@ define ISE = (c == 101 || c == 69)
+//@ init 0
+//@ step ite(acc == 0, ite(c == 45, 1, ite(c == 48, 2, ite(DIG, 3, 9))),
+//@      ite(acc == 1, ite(c == 48, 2, ite(DIG, 3, 9)),
+//@      ite(acc == 2, ite(c == 46, 4, ite(ISE, 6, 9)),
+//@      ite(acc == 3, ite(DIG, 3, ite(c == 46, 4, ite(ISE, 6, 9))),
+//@      ite(acc == 4, ite(DIG, 5, 9),
+//@      ite(acc == 5, ite(DIG, 5, ite(ISE, 6, 9)),
+//@      ite(acc == 6, ite(DIG, 8, ite(c == 43 || c == 45, 7, 9)),
+//@      ite(acc == 7, ite(DIG, 8, 9),
+//@      ite(acc == 8, ite(DIG, 8, 9), 9)))))))))
+// a run of digits keeps the automaton in (or moves it into) the digit state of the current part
+//@ lemma jst_digits
+//@ forall a bytes, n int, m int
+//@ induct m from n
+//@ hyp 0 <= n && n <= m
+//@ hyp forall k in n..m - 1: a[k] >= 48 && a[k] <= 57
+//@ holds (jst(a, n) == 3 ==> jst(a, m) == 3) && (jst(a, n) == 5 ==> jst(a, m) == 5) && (jst(a, n) == 8 ==> jst(a, m) == 8) && (m > n ==> (jst(a, n) == 4 ==> jst(a, m) == 5) && (jst(a, n) == 6 || jst(a, n) == 7 ==> jst(a, m) == 8))
+//@ props C13
+// the automaton reads only the bytes
+//@ lemma jst_cong
+//@ forall a bytes, b bytes, n int
+//@ induct n from 0
+//@ hyp 0 <= n
+//@ hyp forall k in 0..n - 1: a[k] == b[k]
+//@ holds jst(a, n) == jst(b, n)
+//@ props C13
+
 // digits.fmtF (C06, C07, C20): the bytes of the positional form. With DP = ndig + exp the position of
 // the decimal point: integer part = the first DP digits (zero-extended when the digits run out; a
 // single 0 when DP <= 0 or there are no digits); with a positive precision a point, -DP zeros when
@@ -3029,6 +3082,7 @@ package decimal128
 //@ func digits.fmtF
 //@ returns (out)
 //@ requires 0 <= d.ndig && d.ndig <= 39 && 0 - 9900 <= d.exp && d.exp <= 9900 && width <= 100000000 && width >= 0 && prec <= 100000000
+//@ requires forall k in 0..38: k < d.ndig ==> 48 <= d.dig[k] && d.dig[k] <= 57
 //@ define DG = arr(d.dig)
 //@ define N0 = len(old(buf))
 //@ define SL = ite(d.neg || printSign || padSign, 1, 0)
@@ -3092,6 +3146,17 @@ package decimal128
 //@ assert before "buf = d.pad(buf, start, width, printSign, padSign, padRight, padZero)": P0 > 0 ==> (forall k in F0 + FD..LEN - 1: buf[k] == 48)
 //@ ensures len(out) == ite(width > LEN - N0, N0 + width, LEN)
 //@ ensures forall k in 0..N0 - 1: out[k] == old(buf[k])
+//@ define JS = (N0 == 0 && !printSign && !padSign && (d.ndig > 0 ==> d.dig[0] != 48))
+//@ apply before "buf = d.pad(buf, start, width, printSign, padSign, padRight, padZero)": jst_digits(buf, MB + 1, MB + ite(DP > 0, DP, 1))
+//@ apply before "buf = d.pad(buf, start, width, printSign, padSign, padRight, padZero)": jst_digits(buf, MB + IL + 1, ite(P0 > 0, LEN, MB + IL + 1))
+//@ assert before "buf = d.pad(buf, start, width, printSign, padSign, padRight, padZero)": JS ==> jst(buf, MB) == ite(d.neg, 1, 0)
+//@ assert before "buf = d.pad(buf, start, width, printSign, padSign, padRight, padZero)": JS ==> jst(buf, MB + 1) == ite(DP > 0, 3, 2)
+//@ assert before "buf = d.pad(buf, start, width, printSign, padSign, padRight, padZero)": JS && DP > 0 ==> jst(buf, MB + DP) == 3
+//@ assert before "buf = d.pad(buf, start, width, printSign, padSign, padRight, padZero)": JS ==> jst(buf, MB + IL) == ite(DP > 0, 3, 2)
+//@ assert before "buf = d.pad(buf, start, width, printSign, padSign, padRight, padZero)": JS && P0 > 0 ==> jst(buf, MB + IL + 1) == 4
+//@ assert before "buf = d.pad(buf, start, width, printSign, padSign, padRight, padZero)": JS && P0 > 0 ==> jst(buf, LEN) == 5
+//@ assert before "buf = d.pad(buf, start, width, printSign, padSign, padRight, padZero)": JS && P0 <= 0 && !forceDP ==> jst(buf, LEN) == ite(DP > 0, 3, 2)
+//@ ensures JS && width == 0 && !forceDP ==> jst(out, len(out)) == ite(P0 > 0, 5, ite(DP > 0, 3, 2))
 //@ props C06 C07 C20
 
 //@ func digits.pad
@@ -3102,6 +3167,7 @@ package decimal128
 //@ define PC = ite(padZero, 48, 32)
 //@ define SGN = (padZero && (d.neg || printSign || padSign))
 //@ define P = (old(width) - (N0 - S))
+//@ ensures P <= 0 ==> jst(out, len(out)) == old(jst(buf, len(buf)))
 //@ ensures len(out) == ite(P > 0, S + width, N0)
 //@ ensures forall k in 0..S - 1: out[k] == old(buf[k])
 //@ ensures !padRight ==> (forall k in 0..S - 1: old(buf)[k] == old(buf[k]))
